@@ -29,13 +29,16 @@ theorem tables_pinned :
     Tables.stubOverrideCallbacks =
       [("List", "upon_encountering_list"), ("Map", "upon_encountering_map"),
        ("Nullable", "upon_encountering_nullable"), ("Timestamp", "upon_encountering_timestamp"),
-       ("String", "upon_encountering_string")] ∧
+       ("String", "upon_encountering_string"), ("UserDefined", "upon_encountering_user_defined")] ∧
     Tables.stubCallbackFormats =
       [("List", "List[{}]"), ("Map", "Dict[{}, {}]"), ("Nullable", "Optional[{}]"), ("Timestamp", ""),
-       ("String", "Text")] ∧
+       ("String", "Text"), ("UserDefined", "")] ∧
     Tables.stubCallbackRegisters =
       [("List", "typing:List"), ("Map", "typing:Dict"), ("Nullable", "typing:Optional"),
-       ("Timestamp", "adhoc:import datetime"), ("String", "typing:Text")] ∧
+       ("Timestamp", "adhoc:import datetime"), ("String", "typing:Text"),
+       ("UserDefined", "adhoc-expr:'from {} import {}{}'.format(self.args.package, fmt_namespace(data_type.namespace.name), TYPE_IGNORE_COMMENT)")] ∧
+    Tables.stubCallbackGuards =
+      [("UserDefined", "data_type.namespace not in [ns] + ns.get_imported_namespaces(consider_annotation_types=True)")] ∧
     Tables.stubOtherRegisters =
       [("_generate_typevars", "typing:TypeVar"),
        ("_generate_struct_or_union_class_custom_annotations", "typing:Type"),
@@ -57,7 +60,7 @@ theorem tables_pinned :
        ("_generate_struct_or_union_class_custom_annotations", "annotation_type: Type[T],"),
        ("_generate_struct_or_union_class_custom_annotations", "field_path: Text,"),
        ("_generate_struct_or_union_class_custom_annotations", "processor: Callable[[T, U], U],")] :=
-  ⟨rfl, rfl, rfl, rfl, rfl, rfl, rfl⟩
+  ⟨rfl, rfl, rfl, rfl, rfl, rfl, rfl, rfl⟩
 
 /-! ## Annotations: the code's mapping is the PEP 484 mapping -/
 
@@ -223,15 +226,19 @@ theorem stub_members_eq (N : Naming) (api : Api) (n : Nat) (ns : String) (t : Ty
 
 /-! ## Imports: every name an annotation uses is imported or defined -/
 
-/-- **C15, imports.** For every API description and namespace in which every user type the
-annotations can mention (aliases resolved, inherited fields included) is a class of the namespace or
-lives in a namespace the stub imports (`refsCovered`), every name used in an annotation of the stub
-is imported by the emitted import list (fixed imports, namespace imports, and the placeholder filled
-with what was registered with the `ImportTracker` while emitting), defined in the stub, or a builtin
-(`bool int float bytes str`). The hypothesis is NOT implied by what the frontend guarantees
-(`directCovered`): see `imports_counterexample`. -/
+/-- **C15, imports.** For every API description and namespace, every name used in an annotation of
+the stub is imported by the emitted import list (fixed imports, namespace imports, and the placeholder
+filled with what was registered with the `ImportTracker` while emitting), defined in the stub, or a
+builtin (`bool int float bytes str`). The only hypothesis is a well-formedness the frontend
+establishes: a reference INTO the namespace itself (aliases resolved, inherited fields included) is to
+a type it defines (`ownRefsDefined`). The namespace modules of all other classes the annotations
+mention are imported - also those the spec text of the namespace never names (reached through the
+target of a foreign alias or an inherited field): since the repair of
+C15-stub-indirect-namespace-import the mapping callback for user-defined types registers them
+(`imports_regression`; the theorem used to need `refsCovered`, which the frontend does not
+guarantee). -/
 theorem stub_imports_closed (N : Naming) (api : Api) (ns : Namespace) (m : ModDecl)
-    (href : refsCovered api ns = true) (h : stubNs N api ns = .ok m) :
+    (href : ownRefsDefined api ns = true) (h : stubNs N api ns = .ok m) :
     ∀ x ∈ m.annNames, x ∈ m.imported ∨ x ∈ m.defined ∨ x ∈ pyBuiltins := by
   unfold stubNs at h
   split at h
@@ -243,8 +250,8 @@ theorem stub_imports_closed (N : Naming) (api : Api) (ns : Namespace) (m : ModDe
     simp only [ModDecl.imported, ModDecl.defined, List.flatMap_append, List.mem_append]
     rcases ha with a | a | ⟨a, b⟩ | a | ⟨t, ht, rfl⟩ | ⟨i, hi, rfl⟩
     · exact Or.inr (Or.inr a)
-    · exact Or.inl (Or.inl (Or.inl (typing_imported _ x a)))
-    · subst a; exact Or.inl (Or.inl (Or.inl (datetime_imported _ b)))
+    · exact Or.inl (Or.inl (Or.inl (typing_imported _ _ x a)))
+    · subst a; exact Or.inl (Or.inl (Or.inl (datetime_imported _ _ b)))
     · simp only [List.mem_cons, List.not_mem_nil, or_false] at a
       rcases a with rfl | rfl | rfl | rfl
       · exact Or.inl (Or.inl (Or.inr (by simp [Import.binds])))
@@ -254,11 +261,13 @@ theorem stub_imports_closed (N : Naming) (api : Api) (ns : Namespace) (m : ModDe
     · refine Or.inr (Or.inl ?_)
       simp only [stubBody, List.flatMap_append, List.mem_append, flatW_fst, flatMap_flatMap']
       exact Or.inl (Or.inl (Or.inr (List.mem_flatMap.mpr ⟨t, ht, class_defined N api ns.name t⟩)))
-    · refine Or.inl (Or.inr ?_)
-      simp only [List.flatMap_map, List.mem_flatMap, Import.binds, List.mem_singleton]
-      exact ⟨i, hi, rfl⟩
+    · have := nsRef_imported ns.imports (stubBody N api ns).2 i hi
+      simp only [List.flatMap_append, List.mem_append] at this
+      rcases this with this | this
+      · exact Or.inl (Or.inl (Or.inl this))
+      · exact Or.inl (Or.inr this)
 
-/-! ## Regression of D20, and the hypothesis of `stub_imports_closed` is needed -/
+/-! ## Regressions of D20 and of C15-stub-indirect-namespace-import -/
 
 /-- alias names `fmt_class` changes (`AS` → `As`, `HTTPCode` → `HttpCode`, `HTTPUnion` → `HttpUnion`),
 one it leaves alone, and an alias of a union -/
@@ -289,15 +298,31 @@ def chainA : Namespace :=
     types := [{ kind := .struct, name := "S", fields := [⟨"x", .alias "b" "Al" (.user "c" "Foo"), false⟩] }] }
 def chainApi : Api := ⟨[chainA, chainB, chainC]⟩
 
-/-- The frontend's guarantee (`directCovered`) holds in every namespace, `refsCovered` fails for `a`,
-and the stub of `a` annotates with `c.Foo` although `c` is neither imported nor defined: the
-hypothesis of `stub_imports_closed` cannot be weakened to what the frontend guarantees. (The same
-happens through a field inherited from a parent in another namespace.) -/
-theorem imports_counterexample :
+/-- Regression of C15-stub-indirect-namespace-import: the frontend's guarantee (`directCovered`) holds
+in every namespace, `refsCovered` fails for `a` (its annotations mention `c.Foo`, its spec text
+never names `c`), and the stub of `a` used to annotate with `c.Foo` without importing `c`. The
+callback for user-defined types now registers `from <package> import c`: nothing is unresolved, and
+the namespace imports of the stub are `c` (placeholder) and `b` (regular block). -/
+theorem imports_regression :
     (chainApi.namespaces.all directCovered) = true ∧ chainsOK chainApi = true ∧
-    refsCovered chainApi chainA = false ∧
-    (stubNs pyNaming chainApi chainA).map (fun m => dedup m.unresolved) = .ok ["c"] := by
-  refine ⟨by decide, by decide, by decide, ?_⟩
+    refsCovered chainApi chainA = false ∧ ownRefsDefined chainApi chainA = true ∧
+    (stubNs pyNaming chainApi chainA).map (fun m => (m.unresolved, m.imports.filter (fun i => match i with | .ns _ => true | _ => false))) =
+      .ok ([], [.ns "c", .ns "b"]) := by
+  refine ⟨by decide, by decide, by decide, by decide, ?_⟩
+  rfl
+
+/-- the same through a field inherited from a parent in another namespace: `a.S2 extends b.Base`,
+`b.Base` has a field of type `List(c.Foo?)` -/
+def inhB : Namespace :=
+  { name := "b", imports := ["c"],
+    types := [{ kind := .struct, name := "Base", fields := [⟨"w", .list (.nullable (.user "c" "Foo")), false⟩] }] }
+def inhA : Namespace :=
+  { name := "a", imports := ["b"], types := [{ kind := .struct, name := "S2", parent := some ("b", "Base"), fields := [⟨"y", .integer, false⟩] }] }
+def inhApi : Api := ⟨[inhA, inhB, chainC]⟩
+
+example : directCovered inhA = true ∧ refsCovered inhApi inhA = false ∧
+    (stubNs pyNaming inhApi inhA).map (fun m => (m.unresolved, m.imports.contains (.ns "c"))) = .ok ([], true) := by
+  refine ⟨by decide, by decide, ?_⟩
   rfl
 
 /-! ## Non-vacuity: a description on which every hypothesis holds -/
@@ -320,7 +345,8 @@ def exFiles : Namespace :=
     routes := [⟨"get", 1⟩, ⟨"get", 2⟩] }
 def exApi : Api := ⟨[exCommon, exFiles]⟩
 
-example : chainsOK exApi = true ∧ refsCovered exApi exFiles = true ∧ refsCovered exApi exCommon = true := by decide
+example : chainsOK exApi = true ∧ ownRefsDefined exApi exFiles = true ∧ ownRefsDefined exApi exCommon = true ∧
+    refsCovered exApi exFiles = true := by decide
 
 /-- the judged names of `files`, both sides -/
 example : (stubNs pyNaming exApi exFiles).map judgedNames =
